@@ -33,7 +33,7 @@ type c14Case struct {
 
 func genC14(t *rapid.T) c14Case {
 	var c c14Case
-	c.Family = rapid.SampledFrom([]string{"value", "value", "throw", "syntax", "loop", "loop", "slow", "recursion"}).Draw(t, "family")
+	c.Family = rapid.SampledFrom([]string{"value", "value", "throw", "syntax", "loop", "loop", "slow", "recursion", "cyclic"}).Draw(t, "family")
 	c.Variant = rapid.IntRange(0, 5).Draw(t, "variant")
 	c.Placement = rapid.SampledFrom([]string{"run", "action", "condition", "condition-not"}).Draw(t, "placement")
 	c.Source = rapid.SampledFrom([]string{"control", "control", "default", "off", "locoff"}).Draw(t, "source")
@@ -99,6 +99,20 @@ func (c c14Case) script() (code string, want interface{}) {
 		default:
 			return "var n = 0; while (n >= 0) { n = (n + 1) % 1000; }", nil
 		}
+	case "cyclic":
+		// a value (or an argument of a location function) that refers
+		// to itself: it has no JSON form, so it cannot be a result; what
+		// matters is that the attempt ends (as an error, most likely)
+		switch c.Variant % 4 {
+		case 0:
+			return "var o = {}; o.self = o; o", nil
+		case 1:
+			return "var a = [1]; a.push(a); a", nil
+		case 2:
+			return "var o = {k: 'v'}; o.list = [{back: o}]; Env.AddFact('cyc', o); 'stored'", nil
+		default:
+			return "var p = {}; var q = {p: p}; p.q = q; ({wrapped: p})", nil
+		}
 	case "recursion":
 		switch c.Variant % 3 {
 		case 0:
@@ -139,7 +153,7 @@ func runC14(c c14Case) *vlib.Outcome {
 		limit = 5 * time.Second
 	}
 	desc := fmt.Sprintf("%s script %q as %s with timeout %v from %s", c.Family, code, c.Placement, limit, c.Source)
-	if c.Family == "loop" || c.Family == "slow" || c.Family == "value" || c.Family == "recursion" {
+	if c.Family == "loop" || c.Family == "slow" || c.Family == "value" || c.Family == "recursion" || c.Family == "cyclic" {
 		o.NonTrivial = true
 	}
 
@@ -277,6 +291,11 @@ func runC14(c c14Case) *vlib.Outcome {
 		if elapsed > limit+time.Second {
 			o.Label("slow-stop>1s")
 		}
+	case "cyclic":
+		// Nothing to compare: the call came back (the hard bound above)
+		// and the process is still there.  A cyclic value reported as a
+		// successful result would be odd but is not excluded.
+		o.Label("cyclic-value")
 	case "recursion":
 		// stopped by the timeout or by an error of its own, whichever
 		// comes first: an error on its node either way, and the process
